@@ -152,8 +152,8 @@ func runFLProg(p flProg, rep *Report) (in []string, want []string, monitorFail s
 	// rollbackRestores (allocator bookkeeping): the allocating transaction a page carried when a
 	// later-aborted transaction freed it; the next Free of that page must carry it again
 	expectAlloc := map[uint64]uint64{}
-	var commitImg []byte      // image written at the last "commit" (reload source)
-	var commitState *flState  // allocator state at that point
+	var commitImg []byte     // image written at the last "commit" (reload source)
+	var commitState *flState // allocator state at that point
 	for _, o := range p.Ops {
 		panicked := false
 		call := func(f func()) {
